@@ -35,12 +35,12 @@ using simfs::Bytes;
 
 namespace
 {
-  struct FileEntry { std::string name; int shape; Bytes bytes; };
+  struct FileEntry { std::string name; int shape; Bytes bytes; Bytes charts; };   // charts: companion chart file, read first (multi-file meshes)
   std::vector<FileEntry> g_files;   // shape 0..3: quad, tria, hexa, tetra; 4: property map (INI)
   const char* g_types[4] = {"conformal:hypercube:2:2", "conformal:simplex:2:2", "conformal:hypercube:3:3", "conformal:simplex:3:3"};
 
   std::string g_dir;
-  struct DirGuard { ~DirGuard() { if(!g_dir.empty()) { ::unlink((g_dir + "/in.dat").c_str()); ::rmdir(g_dir.c_str()); } } } g_dir_guard;
+  struct DirGuard { ~DirGuard() { if(!g_dir.empty()) { ::unlink((g_dir + "/in.dat").c_str()); ::unlink((g_dir + "/ch.dat").c_str()); ::rmdir(g_dir.c_str()); } } } g_dir_guard;
 
   struct Result
   {
@@ -60,12 +60,15 @@ namespace
       closedir(d);
     }
     std::sort(names.begin(), names.end());
+    std::vector<FileEntry> pending, chart_files;
     for(const auto& n : names)
     {
       std::ifstream f(std::string(dir) + "/" + n, std::ios::binary);
       Bytes b((std::istreambuf_iterator<char>(f)), std::istreambuf_iterator<char>());
-      if(b.size() > 30000 || b.empty()) continue;
+      if(b.size() > 140000 || b.empty()) continue;
       std::string all(b.begin(), b.end());
+      if(all.find("mesh=\"") == std::string::npos || all.find("mesh=\"") > 400) { chart_files.push_back({n, -1, b, Bytes()}); continue; }   // chart-only file
+
       // self-contained files only (mesh parts that refer to charts of a companion file are not valid on their own)
       bool external_chart = false;
       for(size_t p = all.find(" chart=\""); p != std::string::npos && !external_chart; p = all.find(" chart=\"", p + 1))
@@ -75,10 +78,34 @@ namespace
         std::string cn = all.substr(q, e - q);
         if(!cn.empty() && all.find("<Chart name=\"" + cn + "\"") == std::string::npos) external_chart = true;
       }
-      if(external_chart) continue;
+      if(external_chart) { pending.push_back({n, -1, b, Bytes()}); continue; }
+      if(b.size() > 30000) continue;   // single files: the small ones (n ranks parse each); the multi-file meshes are all > 100 kB
       std::string head = all.substr(0, std::min<size_t>(all.size(), 400));
       for(int t = 0; t < 4; ++t)
         if(head.find(std::string("mesh=\"") + g_types[t] + "\"") != std::string::npos) g_files.push_back({n, t, b});
+    }
+    // multi-file meshes: a mesh whose parts refer to charts of a companion file, paired with the first chart-only file that
+    // defines all of them; the reader gets both names, the chart file first
+    for(const FileEntry& pe : pending)
+    {
+      std::string all(pe.bytes.begin(), pe.bytes.end());
+      std::string head = all.substr(0, std::min<size_t>(all.size(), 400));
+      for(const FileEntry& cf : chart_files)
+      {
+        std::string cs(cf.bytes.begin(), cf.bytes.end());
+        bool ok = true;
+        for(size_t p = all.find(" chart=\""); p != std::string::npos && ok; p = all.find(" chart=\"", p + 1))
+        {
+          size_t q = p + 8, e = all.find('"', q);
+          if(e == std::string::npos) { ok = false; break; }
+          std::string cn = all.substr(q, e - q);
+          if(!cn.empty() && all.find("<Chart name=\"" + cn + "\"") == std::string::npos && cs.find("<Chart name=\"" + cn + "\"") == std::string::npos) ok = false;
+        }
+        if(!ok) continue;
+        for(int t = 0; t < 4; ++t)
+          if(head.find(std::string("mesh=\"") + g_types[t] + "\"") != std::string::npos) g_files.push_back({pe.name + "+" + cf.name, t, pe.bytes, cf.bytes});
+        break;
+      }
     }
     // property maps: three texts in the documented INI format (sections, nested sections, comments, continuation lines)
     static const char* inis[3] = {
@@ -204,7 +231,9 @@ std::string harness_run()
   const FileEntry& fe = g_files[cand[size_t(sim::cfg_int("file", 0, 1 << 20)) % cand.size()]];
   const int nfaults = int(sim::cfg_weighted("nfaults", {2, 5, 2}));
 
-  Bytes bytes = fe.bytes;
+  Bytes bytes = fe.bytes, charts = fe.charts;
+  const bool two_files = !fe.charts.empty();
+  if(two_files) sim::probe("multi_file_mesh", 1);
   simfs::FaultLog flog;
   Result ref;
   std::vector<Result> res((size_t)n);
@@ -214,25 +243,29 @@ std::string harness_run()
   sim::spawn("ref", [&]() {
     for(int k = 0; k < nfaults; ++k)
     {
+      // a multi-file mesh is damaged in one of its two files
+      const bool hit_charts = two_files && simfs::pick(2, "fault_in_chart_file") == 1;
+      Bytes& tgt = hit_charts ? charts : bytes;
+      if(hit_charts) flog.ops += "[chart file] ";
       // weights: TRUNCATE_AT 3, TRUNCATE_TO_EMPTY 1, TORN_BLOCK 2, DROP_BLOCK 2, DUP_BLOCK 2, BITFLIP 3, NUL_BYTE 3
       static const int kinds[16] = {0, 0, 0, 1, 2, 2, 3, 3, 4, 4, 5, 5, 5, 6, 6, 6};
       switch(kinds[sim::decide(sim::PICK, 16, "fault_kind")])
       {
-      case 0: simfs::truncate_at(bytes, flog, int(simfs::pick(2, "trunc_bias"))); break;
-      case 1: if(!bytes.empty()) { bytes.clear(); flog.ops += "TRUNCATE_TO_EMPTY "; flog.must_reject = !ini; flog.why += "nothing of the file reached the disk; "; sim::count_fault("TRUNCATE_TO_EMPTY"); } break;
-      case 2: simfs::torn_block(bytes, flog); break;
-      case 3: simfs::drop_block(bytes, flog); break;
-      case 4: simfs::dup_block(bytes, flog); break;
-      case 5: simfs::bitflip(bytes, flog, int(simfs::pick(2, "flip_bias"))); break;
-      default: nul_byte(bytes, flog); break;
+      case 0: simfs::truncate_at(tgt, flog, int(simfs::pick(2, "trunc_bias"))); break;
+      case 1: if(!tgt.empty()) { tgt.clear(); flog.ops += "TRUNCATE_TO_EMPTY "; if(!ini && !hit_charts) { flog.must_reject = true; flog.why += "nothing of the mesh file reached the disk; "; } sim::count_fault("TRUNCATE_TO_EMPTY"); } break;
+      case 2: simfs::torn_block(tgt, flog); break;
+      case 3: simfs::drop_block(tgt, flog); break;
+      case 4: simfs::dup_block(tgt, flog); break;
+      case 5: simfs::bitflip(tgt, flog, int(simfs::pick(2, "flip_bias"))); break;
+      default: nul_byte(tgt, flog); break;
       }
     }
     if(nfaults > 1) flog.must_reject = false;   // the must-reject claim is by construction of a single op
     if(ini) flog.must_reject = false;           // an INI text cut anywhere outside an open brace is still a property map
-    if(!ini && declares_huge(bytes, fe.bytes)) { skipped = true; return; }
-    const std::string text(bytes.begin(), bytes.end());
+    if(!ini && (declares_huge(bytes, fe.bytes) || (two_files && declares_huge(charts, fe.charts)))) { skipped = true; return; }
+    const std::string text(bytes.begin(), bytes.end()), ctext(charts.begin(), charts.end());
     if(ini) parse_pmap(ref, [&](PropertyMap& pm) { std::istringstream is(text); pm.read(is, true); });
-    else { std::istringstream is(text); parse_shape(fe.shape, ref, [&](Geometry::MeshFileReader& rd) { rd.add_stream(is); }); }
+    else { std::istringstream is(text), isc(ctext); parse_shape(fe.shape, ref, [&](Geometry::MeshFileReader& rd) { if(two_files) rd.add_stream(isc); rd.add_stream(is); }); }
   });
   sim::run_go();
   if(skipped) { sim::probe("skipped_huge_count", 1); return "{\"file\":" + sim::jstr(fe.name) + ",\"skipped\":1}"; }
@@ -244,14 +277,20 @@ std::string harness_run()
     f.write(bytes.data(), std::streamsize(bytes.size()));
     if(!f.good()) sim::fail("INFRA", "cannot write the scratch file");
   }
+  if(two_files)
+  {
+    std::ofstream f(g_dir + "/ch.dat", std::ios::binary | std::ios::trunc);
+    f.write(charts.data(), std::streamsize(charts.size()));
+    if(!f.good()) sim::fail("INFRA", "cannot write the scratch file");
+  }
 
   // world 2: n ranks read the file by name
   const int shape = fe.shape;
-  simmpi::world_begin(n, [&res, ini, shape, fname](int r) {
+  simmpi::world_begin(n, [&res, ini, shape, fname, two_files](int r) {
     Dist::Comm comm = Dist::Comm::world();
     Result& my = res[size_t(r)];
     if(ini) parse_pmap(my, [&](PropertyMap& pm) { pm.read(comm, String(g_dir + "/" + fname), true); });
-    else parse_shape(shape, my, [&](Geometry::MeshFileReader& rd) { std::deque<String> names; names.push_back(String(fname)); rd.add_mesh_files(comm, names, String(g_dir)); });
+    else parse_shape(shape, my, [&](Geometry::MeshFileReader& rd) { std::deque<String> names; if(two_files) names.push_back(String("ch.dat")); names.push_back(String(fname)); rd.add_mesh_files(comm, names, String(g_dir)); });
   });
   sim::run_go();
   simmpi::world_end();
@@ -264,7 +303,7 @@ std::string harness_run()
     if(my.outcome < 0) sim::fail("DIST_PARSE_NO_OUTCOME", who + ": the rank ended without an outcome");
     // an empty file: whether the file layer hands an empty text to the parser or refuses the file with a documented
     // exception of its own is its business - the ranks have to agree, and an empty mesh file has to be rejected
-    const bool compare_with_ref = !bytes.empty();
+    const bool compare_with_ref = !bytes.empty() && !(two_files && charts.empty());
     if(compare_with_ref && my.outcome != ref.outcome)
       sim::fail("DIST_PARSE_DIFFERS", who + ": " + (my.outcome == 0 ? std::string("parsed an object") : "rejected (" + my.family + ": " + shorten(my.what) + ")") +
         ", but the parser on the text of the file " + (ref.outcome == 0 ? std::string("parses an object") : "rejects it (" + ref.family + ": " + shorten(ref.what) + ")"));
